@@ -49,7 +49,7 @@ def kernel_cases(ctx):
 
 def _cases(ctx, nl):
     import random, warnings
-    import lensgen, seidelcorr
+    import lensgen, seidelcorr, oracles, paraxcorr
     warnings.simplefilter('ignore')
     rng = random.Random(ctx.seed * 17 + 5)
     cases = []
@@ -68,6 +68,9 @@ def _cases(ctx, nl):
         elif li >= len(corp) and li % 6 == 2 and not math.isinf(spec['object_thickness']):
             lensgen.immerse(spec, rng)       # object / image space not in air
             hist['immersed'] = hist.get('immersed', 0) + 1
+        if li >= len(corp) and li % 5 == 4 and len(spec['fields']) > 1:
+            lensgen.reorder_fields(spec, rng)      # the full-field chief ray does not depend on the order of the field list
+            hist['fields_reordered'] = hist.get('fields_reordered', 0) + 1
         edits = []
         try:
             o = lensgen.build(spec)
@@ -76,13 +79,17 @@ def _cases(ctx, nl):
                 edits = lensgen.random_edits(o, spec, rng, kinds=['index', 'index', 'radius', 'thickness'])
                 hist['edited'] = hist.get('edited', 0) + 1
             rows, g, out = seidelcorr.gather(o)
+            # the paraxial rays the formulas are evaluated with must be THE marginal ray and the full-field chief ray of
+            # the prescription (independent matrix optics), otherwise "classical formulas" are satisfied by the wrong rays
+            par = [dict(b, kind='seidel-input') for b in oracles.check_paraxial(paraxcorr.psurfs(o), spec, paraxcorr.impl_queries(o))
+                   if b.get('quantity', '').startswith(('chief', 'marginal', 'Lagrange'))]
         except Exception as e:   # noqa
             hist['errors'][type(e).__name__] = hist['errors'].get(type(e).__name__, 0) + 1
             continue
         hist['lenses'] += 1
         hist['with_mirror'] += int(any(r['refl'] for r in rows))
         hist['catalogue_glass'] += int(any(isinstance(s['material'], list) and s['material'][0] == 'glass' for s in spec['surfaces']))
-        cases.append(dict(rows=rows, g=g, out=out, spec=spec, edits=edits))
+        cases.append(dict(rows=rows, g=g, out=out, spec=spec, edits=edits, par=par[:3]))
     return cases, hist
 
 
@@ -104,7 +111,7 @@ def system_checks(ctx):
         if c['g']['inv'] != 0 and key not in seen:
             seen.add(key)
             res['nontrivial'] += 1
-        orc = seidelcorr.check_seidel(c['rows'], c['g'], c['out'])
+        orc = c['par'] + seidelcorr.check_seidel(c['rows'], c['g'], c['out'])
         if ci in bad or orc:
             res['disagreements'].append({'spec': c['spec'], 'edits_after_first_query': c['edits'], 'model_agrees': ci not in bad, 'oracle': orc[:6],
                                          'violates_property': bool(orc)})
@@ -119,7 +126,7 @@ def search(ctx, broken, disagreements):
     cases, hist = _cases(ctx, ctx.n(150, 1500))
     out = []
     for c in cases:
-        orc = seidelcorr.check_seidel(c['rows'], c['g'], c['out'])
+        orc = c['par'] + seidelcorr.check_seidel(c['rows'], c['g'], c['out'])
         if orc:
             out.append({'spec': c['spec'], 'edits_after_first_query': c['edits'], 'oracle': orc[:6], 'violates_property': True})
     # report unlisted-looking ones first
